@@ -132,7 +132,11 @@ class _Sym:
 
     def choice(self, name, n):
         """A solver-chosen index in range(n), returned as a *concrete* int (one fork per value)."""
-        x = self.int(name, 0, n - 1)
+        win, self.window = self.window, None  # the window restricts leaf values, never the index of a menu / a length
+        try:
+            x = self.int(name, 0, n - 1)
+        finally:
+            self.window = win
         for i in range(n - 1):
             if x == i:
                 self.choices.append(i)
